@@ -17,6 +17,10 @@ def rows():
         what = re.sub(r"\s+", " ", m.get("needs_to_manifest", "")).lstrip("# ").replace("|", "/")[:230]
         caught = ", ".join(m["caught_by"]) or "-"
         silent = ", ".join(m["silent"]) or "-"
+        if m.get("inconclusive"):
+            caught += " (inconclusive: %s)" % ", ".join(m["inconclusive"])
+        if "outside_every_statement" in m:
+            caught += " - outside every statement, see meta.json"
         if "stated_by" in m:
             caught += " (stated by %s)" % m["stated_by"]["property"]
         out.append("| %s | %s | %s | %s |" % (m["id"], what, caught, silent))
